@@ -59,6 +59,10 @@ def gen_case(task, i):
         names = [f["name"] for f in fm] or ["update"]
         n = r.choice(names)
         src += f'    db.Setting = HASH("{n}")\n    d0.Setting = HASH("{n.replace("_", ".")}")\n    d1.Setting = HASH("a {n} b")\n'
+        if r.random() < 0.6:
+            # a quoted operand containing '#' (or a label name) on a branch line: the label operand comes after it
+            q = r.choice(["Slot#1", "a#b", f"{n}#", "#", "x # y", f"# {n.replace('_', '.')}"])
+            src += f'    if d0.Setting == HASH("{q}"):\n        d2.Setting = 1\n    if d1.Setting != STR("{q[:6]}"):\n        d3.Setting = 2\n    else:\n        d3.Setting = 3\n'
     elif st == "corpus":
         src = workload.corpus_case(i)["src"]
         base["inline_functions"] = bool(i & 1)
